@@ -207,6 +207,12 @@ def run(tier):
     validator_rules(prog, res)
     ordering_rules(prog, res)
     producer_rules(prog, res)
+    # frozen guards of lib/compress for the error codes this property owns (shared inventory, split by code)
+    import json as _json, os as _os
+    from ..rules import guards as _guards
+    _inv = [e for e in _json.load(open(_os.path.join(_os.path.dirname(_os.path.abspath(__file__)), "inv", "compress_all.json"))) if set(e["codes"]) & {'externalSequences_invalid', 'sequenceProducer_failed'}]
+    _guards.check_inventory(prog, res, 'T8.frozen-guards(sequences)', _inv)
+    res.need('T8.frozen-guards(sequences)', 13)
     return res.finish(
         explanation="With validation on, both copiers store a sequence only after a successful validation of the very values "
                     "they store, at the position decoded when the match starts; the validator bounds the offset by the window or "
